@@ -38,7 +38,10 @@ GENERIC = (
     "rectangles; mask boxes in exact/subpixel mode; weights given as lists; pickled / copied masks; scalar SkyCoord queries; nested bounding boxes of "
     "non-nested operands; repeated tags; `Regions.read` vs `Regions.parse`; `RegionMeta(mapping, **overrides)`; `plot()` vs `as_artist()`; "
     "`pathlib.Path` destinations; insertion order of meta entries; `copy(meta=None)`; Python-int limits in `from_float`; simultaneous iterations; "
-    "reversed slices.")
+    "reversed slices; balanced bow-tie polygons (zero signed area); large subpixel counts; scaled dimensionless units (percent); rotation about an "
+    "operand's own centre; sky compounds of operands in different frames; `global` defaults parsed differently from inline keys; the `header=` "
+    "argument; angles below 1e-8 rad about distant pivots; text regions' visual rotation; parent vs derived class equality; augmented "
+    "assignment (`*=`) on Quantity attributes; keyword values None; aspect ratios above 1e13 and sizes near 1e-170 / 1e160.")
 
 LEFT = (
     "Think about what is LEFT: e.g. the order in which two independent features are applied; behaviour at the exact edge of a documented domain "
